@@ -4,7 +4,7 @@
 //
 // Real objects driven: groups.FillCache (Update / RefreshLoop / Get / Stop), the real
 // GoogleProvider and AmazonCognitoProvider membership code with their exported AdminService field
-// holding a scripted directory, the real GroupCache over a scripted inner provider with the real
+// holding a scripted directory (Cognito userInfo served by an in-memory transport), the real GroupCache over a scripted inner provider with the real
 // groups.LocalCache inside (explicit Purge, and a short-TTL variant for the purge timer).
 //
 // The fill function is gated by channels: a fill blocks inside the scripted directory until the
@@ -164,7 +164,6 @@ type scen struct {
 	cognito *providers.AmazonCognitoProvider
 	gc      *providers.GroupCache
 	inner   *innerProvider
-	profSrv *httptest.Server
 
 	stopped  bool
 	pending  map[string]*pend // by group (at most one fill per group is ever open)
@@ -192,19 +191,7 @@ func newScen(kind int, tick bool, lcTTL time.Duration, univ []string) *scen {
 		s.fc = groups.NewFillCache(s.google.PopulateMembers, ttl) // as internal/auth/options.go:41
 		s.google.GroupsCache = s.fc
 	case 1:
-		s.profSrv = httptest.NewServer(http.HandlerFunc(func(w http.ResponseWriter, r *http.Request) {
-			tok := strings.TrimPrefix(r.Header.Get("Authorization"), "Bearer ")
-			if !strings.HasPrefix(tok, "tok-") {
-				w.WriteHeader(401)
-				return
-			}
-			name := strings.TrimPrefix(tok, "tok-")
-			if name == "EMPTY" {
-				name = ""
-			}
-			json.NewEncoder(w).Encode(map[string]string{"email": name + "@example.test", "username": name})
-		}))
-		u, _ := url.Parse(s.profSrv.URL + "/oauth2/userInfo")
+		u, _ := url.Parse("http://cognito.invalid/oauth2/userInfo") // served in memory, see userInfo below
 		s.cognito = &providers.AmazonCognitoProvider{ProviderData: &providers.ProviderData{ProfileURL: u}, AdminService: cognitoAdmin{s.dir}}
 		s.fc = groups.NewFillCache(s.cognito.PopulateMembers, ttl) // as internal/auth/options.go:70
 		s.cognito.GroupsCache = s.fc
@@ -218,10 +205,30 @@ func newScen(kind int, tick bool, lcTTL time.Duration, univ []string) *scen {
 	return s
 }
 
-func (s *scen) close() {
-	if s.profSrv != nil {
-		s.profSrv.Close()
+func (s *scen) close() {}
+
+// userInfo is the scripted Cognito userInfo endpoint: token "tok-<name>" belongs to <name>
+// ("tok-EMPTY": a profile without username), anything else is rejected.
+func userInfo(w http.ResponseWriter, r *http.Request) {
+	tok := strings.TrimPrefix(r.Header.Get("Authorization"), "Bearer ")
+	if !strings.HasPrefix(tok, "tok-") {
+		w.WriteHeader(401)
+		return
 	}
+	name := strings.TrimPrefix(tok, "tok-")
+	if name == "EMPTY" {
+		name = ""
+	}
+	json.NewEncoder(w).Encode(map[string]string{"email": name + "@example.test", "username": name})
+}
+
+// memTransport serves requests by calling the handler directly: no sockets, no timeouts.
+type memTransport struct{ h http.Handler }
+
+func (m memTransport) RoundTrip(req *http.Request) (*http.Response, error) {
+	rec := httptest.NewRecorder()
+	m.h.ServeHTTP(rec, req)
+	return rec.Result(), nil
 }
 
 // ---------------------------------------------------------------- snapshots and emission
@@ -1068,6 +1075,7 @@ func corpus() []c.Case {
 func main() {
 	a := c.ParseArgs()
 	c.Quiet()
+	providers.VerifSetHTTPTransport(memTransport{http.HandlerFunc(userInfo)})
 	r := c.NewRng(a.Seed)
 	cases := corpus()
 	isHung := func(cs c.Case) bool {
